@@ -178,4 +178,21 @@ PROPS = {
         "outside": ["HasDiscoveries::matches / finish_when / target_state_count / target_max_depth wiring (checker loops)", "BFS depth completeness", "simulation seeding and its shutdown flag", "wall-clock accuracy of sleeps"],
         "assumptions": ["log/parking_lot models", "SystemTime::now() returns an arbitrary value (symbolic clock)", "std::thread::sleep is the only blocking call of the thread"],
     },
+    "C19": {
+        "engine": "kani",
+        "files": ["c19.rs"],
+        "timeout": {"quick": 900, "thorough": 3600},
+        "explanation": (
+            "Path-API clause only. Bounded symbolic model checking (Kani/CBMC) of the real Path::from_actions, Path::final_state and "
+            "Path::from_fingerprints code against a SOLVER-CHOSEN model: a transition table over 3 states x 2 actions with symbolic "
+            "successors / ignored actions and a symbolic set of initial states. For every table, start state and action list of length "
+            "<=1 (thorough 2): from_actions yields a path exactly when the sequence is executable from an initial state, and the path "
+            "lists the genuine successor states and actions. For every table and every sequence of <=2 (thorough 3) state fingerprints "
+            "(real ahash fingerprint function): final_state resolves exactly the sequences that denote an execution (None otherwise - "
+            "what the Explorer turns into 404), and from_fingerprints rebuilds that execution with actions that really lead to the next state."
+        ),
+        "bounds": {"states": 3, "actions_per_state": 2, "path_len": "<=1 transition (thorough 2)", "unwind": 5},
+        "outside": ["the Explorer's HTTP/JSON layer, status endpoint and property views", "the on-demand checker (threads, channels; its join() cannot return)", "Path::encode (format!-built string) and paths reported by checkers", "longer paths, larger models"],
+        "assumptions": COMMON_ASSUME + ["fingerprints of the model's 4 state values are pairwise distinct (asserted in the harness, not assumed)"],
+    },
 }
